@@ -156,7 +156,7 @@ func runC12(c *core.Ctx) {
 	if d.Cap > 0 && r.Bool() {
 		n = d.Cap + r.Range(1, 5) // longer than the capacity
 	}
-	if c.Index%151 == 3 && kind != "BinaryHeap" && kind != "PriorityQueue" && !c.Concurrent {
+	if c.Index%37 == 3 && kind != "BinaryHeap" && kind != "PriorityQueue" && !c.Concurrent {
 		// documents of tens of kilobytes (decoders that switch strategy by
 		// document size: streaming, chunked, "skip what will be dropped anyway")
 		n = r.Range(1500, 4000)
@@ -375,7 +375,7 @@ func init() {
 			f.atLeast("attempt:element-replaced", 1500)
 			f.atLeast("attempt:loads-over-float-content", 1000)
 			f.atLeast("heap:arrangement-cases", heapPermCases)
-			f.atLeast("attempt:long-documents", 200)
+			f.atLeast("attempt:long-documents", 800)
 			f.atLeast("attempt:hostile-over-content", 3000)
 			for _, l := range []string{"null", "[]", "{}"} {
 				f.atLeast("attempt:literal:"+l, 10)
